@@ -17,6 +17,7 @@ import Fca.Drv.C03
 import Fca.Drv.C04
 import Fca.Drv.C02
 import Fca.Drv.C19
+import Fca.Drv.C05
 open Lean Fca.Drv
 
 def allHandlers : List (String × Handler) :=
@@ -34,7 +35,8 @@ def allHandlers : List (String × Handler) :=
   Fca.Drv.C03.handlers ++
   Fca.Drv.C04.handlers ++
   Fca.Drv.C02.handlers ++
-  Fca.Drv.C19.handlers
+  Fca.Drv.C19.handlers ++
+  Fca.Drv.C05.handlers
 
 def dispatch (line : String) : String :=
   match Json.parse line with
